@@ -137,7 +137,7 @@ pub fn run(ctx: &Ctx) -> Report {
     pt_run(
         ctx,
         "c10g",
-        ctx.n(6000, 120000),
+        ctx.n(6000, 600000),
         || {
             // domain exponent weighted so that counts >= domain size and ~sqrt(domain) are common
             (any::<u64>(), 0u8..3, 0u32..=300, prop_oneof![4 => 1u32..=8, 3 => 9u32..=16, 2 => 17u32..=62, 1 => 63u32..=64])
@@ -149,7 +149,7 @@ pub fn run(ctx: &Ctx) -> Report {
     pt_run(
         ctx,
         "c10p",
-        ctx.n(3000, 60000),
+        ctx.n(3000, 300000),
         || {
             (prop_oneof![5 => 1u32..=64, 1 => Just(64u32), 1 => Just(1u32)], 0u32..=64, proptest::collection::vec(any::<u64>(), 0..6))
                 .prop_map(|(k, t, idx)| Case::Points { k, t, idx })
